@@ -51,10 +51,12 @@ func init() { register("C20", c20{}) }
 
 var c20Names = []string{"v3.0.0", "v3.0.1", "v3.1.0", "v3.1.0-beta.1", "v3.1.0-beta.2", "v3.1.0-beta.10", "v3.1.0-rc", "v3", "v2", "v2.9.9", "v4.0.0",
 	"3.0.5", "v3.2", "nightly", "rel.1.x", "v3.0.0+build.1", "v3.10.0", "v3.9.0", "v03.1.1", "v3.1.0-0.3.7", "v3.1.0-alpha", "v3.1.0-alpha.1", "latest.stable.build"}
-var c20Requested = []string{"v3.1.0", "v3.0.0", "v3.1.0-beta.2", "v3.0.1", "3.2.0", "v4.0.0", "v2.9.10", "garbage", "v3.1", "v3.10.0", "v3.1.0-beta.11", "v3.1.0-rc.1", "v3.1.1-alpha", "v3.0.2"}
+var c20Requested = []string{"v3.1.0", "v3.0.0", "v3.1.0-beta.2", "v3.0.1", "3.2.0", "v4.0.0", "v2.9.10", "garbage", "v3.1", "v3.10.0", "v3.1.0-beta.11", "v3.1.0-rc.1", "v3.1.1-alpha", "v3.0.2",
+	// short forms: the version is what counts, the tags are always written in full
+	"v3.2", "3.3", "v4", "v3.10", "v3.1", "5"}
 
 func (c20) Generate(c *Ctx) []any {
-	n := c.Budget(60, 600)
+	n := c.Budget(200, 1500)
 	var out []any
 	for i := 0; i < n; i++ {
 		r := c.Rng
